@@ -10,5 +10,16 @@ CHECKS = {
         note="Trusted: numpy dense accumulation as reference model; values are dyadic so accumulation order cannot matter. "
              "Histories deeper than the bound are covered only by the chain; negative/out-of-range indices are outside the alphabet.",
         design="§3 C15"),
+    "C21": dict(
+        level="fault_enumeration", engine="faults",
+        technique="deviation-bounded fault enumeration: every single (and every pair of) Newton-solve / fixed-point-loop / integrator decision point of real 5-step solver runs forced to report non-convergence",
+        text="For 8 solvers x smooth/contact scenarios x continue_with_unconverged x reuse_lu, a dry run records the ordered decision points; "
+             "every subset of size 1 (quick: size<=2 on part of the configurations; thorough: size<=2 everywhere) is forced to fail on the real "
+             "solver and the outcome is judged against the contract (exception, or exactly the converged rows + a warning naming the stop time; "
+             "with the flag: a new warning and a full-length result). Smooth wrappers on contact systems must warn or raise.",
+        note="Trusted: harness-side interposition (rebinding of the fsolve name imported by solver modules, options proxy, helper wrappers); "
+             "a forced Newton failure is the real fsolve with 1 iteration and unreachable tolerances. Failures of 3 or more decision points in one "
+             "run, other scenarios and horizons > 5 steps are outside the bound.",
+        design="§3 C21"),
 }
 NOT_APPLICABLE = {}
